@@ -12,7 +12,9 @@ from packaging.markers import Marker as PkgMarker  # noqa: E402
 THEOREMS_BY_PROP = {
     "C02": ["DepLogic.C02.and_sound", "DepLogic.C02.or_sound", "DepLogic.C02.isEmpty_sound", "DepLogic.C02.isAny_sound",
             "DepLogic.C02.rewriting_sound", "DepLogic.M.sound_all", "DepLogic.M.singleSound", "DepLogic.M.mergeSingle_ok",
-            "DepLogic.M.str_coherent"],
+            "DepLogic.M.str_coherent", "DepLogic.C02.and_sound_lex", "DepLogic.C02.or_sound_lex", "DepLogic.C02.bridge",
+            "DepLogic.M.fromSpecOk_of_lex", "DepLogic.M.pyMergeOk_of_fromSpec", "DepLogic.C02.env0_total",
+            "DepLogic.C02.atomFull_good"],
     "C03": ["DepLogic.C03.build_sound", "DepLogic.M.sound_all", "DepLogic.M.singleSound"],
     "C07": ["DepLogic.C07.str_empty_any", "DepLogic.C07.items_sem", "DepLogic.C07.reparse_sound", "DepLogic.C07.items_ok",
             "DepLogic.C07.atomOf_atomItem", "DepLogic.C03.build_sound"],
